@@ -279,7 +279,7 @@ RUNNERS = {"equiv": run_equiv, "negenum": run_equiv, "rich": run_equiv, "dims": 
 # inside messages through patch rules) together with the schema tuple of the meaning above; the text route is
 # schema.to_prophy of that tuple.
 
-DIM_FORMS = ("plain", "fixed", "fixed2", "var", "var_named", "varsize", "ext", "native")
+DIM_FORMS = ("plain", "fixed", "fixed2", "var", "var_named", "varsize", "varsize2", "ext", "native")
 
 
 def _dim_pool():
@@ -326,10 +326,15 @@ def _dim_struct(name, tag, members):
         elif form == "fixed2":
             add(fn, ("fixed", m["size"] * m["size2"]), ft)
             body += member([("size", size), ("size2", m["size2"])])
-        elif form in ("var", "var_named", "varsize"):
+        elif form in ("var", "var_named", "varsize", "varsize2"):
             dim = [("isVariableSize", "true")]
-            if form == "varsize":
+            cap = m.get("size")
+            if form in ("varsize", "varsize2"):
                 dim.append(("size", size))
+            if form == "varsize2":
+                # size and size2 multiply for a variable-size array as they do for a fixed one: T x<N*M>
+                dim.append(("size2", m["size2"]))
+                cap = m["size"] * m["size2"]
             cname, ctype = m.get("sizer_name"), m.get("sizer_type")
             if cname:
                 dim.append(("variableSizeFieldName", cname))
@@ -337,12 +342,12 @@ def _dim_struct(name, tag, members):
                 dim.append(("variableSizeFieldType", ctype))
             add(cname or fn + "_len", S.PLAIN, S.scalar(ctype or "u32"))
             s = len(fields) - 1
-            if form == "varsize" and tag == "struct":
-                add(fn, ("limited", m["size"], s), ft)
+            if form in ("varsize", "varsize2") and tag == "struct":
+                add(fn, ("limited", cap, s), ft)
             else:
                 add(fn, ("bound", s), ft)
-                if form == "varsize":
-                    hints[len(fields) - 1] = m["size"]
+                if form in ("varsize", "varsize2"):
+                    hints[len(fields) - 1] = cap
             body += member(dim)
         elif form == "ext":
             add(fn, ("bound", index[m["sizer_name"]]), ft)
@@ -417,18 +422,18 @@ def _dim_member(rng, pool, name, form, optional, tag, sizers):
     m = {"name": name, "form": form, "optional": optional}
     if form == "plain":
         m["type"] = rng.choice(pool["fixed"])
-    elif form in ("fixed", "fixed2") or (form == "varsize" and tag == "struct"):
+    elif form in ("fixed", "fixed2") or (form in ("varsize", "varsize2") and tag == "struct"):
         m["type"] = rng.choice(pool["fixed"] + [pool["bytes"]])      # elements of fixed / limited arrays are of fixed size
     else:
         m["type"] = rng.choice(pool["fixed"] + [pool["bytes"], pool["dynamic"], S.scalar("u8"), S.scalar("u16")])
-    if form in ("fixed", "fixed2", "varsize"):
+    if form in ("fixed", "fixed2", "varsize", "varsize2"):
         m["size"] = rng.choice([1, 2, 3, 4, 5])
-    if form == "fixed2":
+    if form in ("fixed2", "varsize2"):
         m["size2"] = rng.choice([1, 2, 3])
     if form == "var_named":
         m["sizer_name"] = rng.choice(["cnt_" + name, name + "Count", "num_of_" + name])
         m["sizer_type"] = rng.choice(S.INTS)
-    elif form == "varsize":
+    elif form in ("varsize", "varsize2"):
         if tag == "struct":
             m["sizer_name"] = "num_of_" + name                      # the only counter the text form x<N> can have
         elif rng.random() < 0.5:
